@@ -2,10 +2,10 @@
     weighted index positive. *)
 From TU Require Import Base RNG_Model.
 Require Import Lia ZifyN Permutation.
-Open Scope N_scope.
-Arguments N.add : simpl never. Arguments N.mul : simpl never. Arguments N.land : simpl never.
-Arguments N.lor : simpl never. Arguments N.lxor : simpl never. Arguments N.shiftl : simpl never. Arguments N.shiftr : simpl never.
-Arguments N.div : simpl never. Arguments N.modulo : simpl never. Arguments N.pow : simpl never. Arguments N.ltb : simpl never. Arguments N.leb : simpl never.
+Local Open Scope N_scope.
+Local Arguments N.add : simpl never. Local Arguments N.mul : simpl never. Local Arguments N.land : simpl never.
+Local Arguments N.lor : simpl never. Local Arguments N.lxor : simpl never. Local Arguments N.shiftl : simpl never. Local Arguments N.shiftr : simpl never.
+Local Arguments N.div : simpl never. Local Arguments N.modulo : simpl never. Local Arguments N.pow : simpl never. Local Arguments N.ltb : simpl never. Local Arguments N.leb : simpl never.
 
 Lemma w32_mod : forall x, w32 x = x mod p32.
 Proof. intros x. unfold w32. change mask32 with (N.ones 32). rewrite N.land_ones. reflexivity. Qed.
